@@ -32,6 +32,8 @@ META['C10'] = {'engine': 'probes', 'level_text': "rapid campaigns: legality pred
 
 META['C19'] = {'engine': 'rest', 'level_text': "rapid campaigns over request sequences against an in-process server: three-way differential (REST, direct call, bundled client) for reads, outcome-class and post-state checks for writes, status-class predicate for invalid requests; exploration", 'level_note': LIFE_NOTE, 'technique': "property-based testing (rapid): request sequences, differential REST vs direct call vs client + status predicate"}
 
+META['C06'] = {'engine': 'osproc', 'level_text': "rapid campaigns over shutdown parameters x real process trees x stop triggers (API and OS signals to the production binary), judged from signal records written by the children, /proc and monotonic time; exploration", 'level_note': "no hooks on this path: real exec, process groups and pipes; real-time bounds are one-sided (sound), slowness is inconclusive", 'technique': "property-based testing (rapid) with real child processes: generated configurations and process trees, ground truth from the children"}
+
 NOT_APPLICABLE = {}
 
 ENGINES = [
@@ -39,6 +41,8 @@ ENGINES = [
      "kind_free_text": "rapid stateful generation driving app.ProjectRunner through a fake commander (build tag verif); trace oracles in harness/oracle"},
     {"name": "logbuf", "path": "harness/logbuf", "serves_properties": ['C18'],
      "kind_free_text": "rapid + exhaustive enumeration over pclog.ProcessLogBuffer and the websocket log stream"},
+    {"name": "osproc", "path": "harness/osproc", "serves_properties": ['C06'],
+     "kind_free_text": "real bash process trees under the unhooked runner and the production binary"},
     {"name": "rest", "path": "harness/rest", "serves_properties": ['C19'],
      "kind_free_text": "rapid request sequences against httptest + api.InitRoutes over a live runner, with client.PcClient"},
     {"name": "probes", "path": "harness/probes", "serves_properties": ['C10'],
